@@ -47,10 +47,10 @@ class NoiseDriver:
         self.real = {}
         self.basis = {}
 
-    def build(self, st):
+    def build(self, st, long=False):
         cls = FullThermalNoise if st['impl'] == 'full' else FFTThermalNoise
-        times = (W0 + 2 * np.arange(st['n'])) * TICK
-        kw = dict(f_amplitude=AMPS[st['amp']], uniqueness_factor=st['uniq'])
+        times = (W0 + 2 * np.arange(st['n'] * 2 + 3 if long else st['n'])) * TICK
+        kw = dict(f_amplitude=AMPS[st['amp']], uniqueness_factor=(2.5 if st['uniq'] == 25 else st['uniq']))
         if st['rmsmode'] == 'rms':
             kw['rms_voltage'] = RMS
         else:
@@ -81,7 +81,7 @@ class NoiseDriver:
         self.basis[b] = dict(f=f, a=a, p=p, rms=float(nz.rms), start=start, impl=st['impl'])
         # unit amplitudes give the requested rms: exact over one period of the FFT implementation
         if st['impl'] == 'fft' and st['amp'] == 'const' and len(f) and np.all(a == 1.0) and not np.any(np.isclose(f, FNY, rtol=1e-9)):
-            per = st['uniq'] * st['n']
+            per = (2 if st['uniq'] == 25 else st['uniq']) * st['n']
             v = np.asarray(nz.with_times((W0 + 2 * np.arange(per)) * TICK).values, dtype=float)
             got = float(np.sqrt(np.mean(v ** 2)))
             if not (abs(got - want_rms) <= 1e-9 * want_rms):
@@ -122,9 +122,14 @@ class NoiseDriver:
         elif op == 'Copy':
             R[last['slot']] = R[last['a']].copy()
         elif op == 'Rebuild':
-            new = self.build(st)
+            # for the full implementation every other rebuilt object is constructed on a longer grid (another number of
+            # frequencies of its own) before it is given the stored basis and the construction window
+            long = st['impl'] == 'full' and last['slot'] % 2 == 0
+            new = self.build(st, long=long)
             B = self.basis[st['objs'][last['a'] - 1]['basis']]
             new.freqs, new.amps, new.phases = B['f'].copy(), B['a'].copy(), B['p'].copy()
+            if long:
+                new.times = (W0 + 2 * np.arange(st['n'])) * TICK
             R[last['slot']] = new
         elif op == 'Fresh':
             new = self.build(st)
